@@ -37,6 +37,16 @@ M = {
  # deep copy of a warm object, then new values: the copy keeps serving the memo (clear_cache skipped on reversed input is not
  # expressible; instead: reset_values does not invalidate the smoothed spectrum when the length is unchanged)
  'r2_same_length_reset_keeps_smooth_memo': [(SG, "        self._npts = len(self._values)\n        self.clear_cache()", "        same = self._npts == len(self._values)\n        self._npts = len(self._values)\n        keep = self._cached_smooth_fa and same\n        self.clear_cache()\n        self._cached_smooth_fa = keep")],
+ # ---- wave-5 follow-up: extreme amplitude scales, extreme frequency ratios with a large bandwidth
+ # |A| through a square: under/overflows for amplitudes below 1e-162 / above 1e154
+ 'r3_amplitude_via_square': [(FR, "np.sum(np.abs(fa_spectrum * 1.0)[:, np.newaxis] * wb_vals, axis=0)", "np.sum(np.sqrt(np.real(fa_spectrum * np.conj(fa_spectrum)) * 1.0)[:, np.newaxis] * wb_vals, axis=0)")],
+ 'r3_custom_amplitude_via_square': [(FR, "    return np.dot(abs(asig.fa_spectrum[1:]), smooth_matrix)", "    return np.dot(np.sqrt(np.real(asig.fa_spectrum[1:] * np.conj(asig.fa_spectrum[1:]))), smooth_matrix)")],
+ # an absolute floor in the bandwidth threshold
+ 'r3_bandwidth_absolute_floor': [(IM, "    ind2 = np.where(fas1_smooth > lim_fas)\n    min_freq = asig.smooth_fa_frequencies[ind2[0][0]]\n    return min_freq", "    ind2 = np.where(fas1_smooth > max(lim_fas, 1e-200))\n    min_freq = asig.smooth_fa_frequencies[ind2[0][0]]\n    return min_freq")],
+ # the window argument as log10((f/fc)**b): leaves the float64 range for b*|log10(f/fc)| > 308 (C07-I class)
+ 'r3_ratio_to_the_power_b': [(FR, AMP + "    wb_vals = (np.sin(amp_array) / amp_array) ** 4\n    wb_vals = np.where(amp_array == 0, 1, wb_vals)\n    wb_vals /= np.sum(wb_vals, axis=0)\n\n    return", "    with np.errstate(all='ignore'):\n        amp_array = np.log10((fa_frequencies[:, np.newaxis] / smooth_fa_frequencies[np.newaxis, :]) ** band)\n    wb_vals = (np.sin(amp_array) / amp_array) ** 4\n    wb_vals = np.where(amp_array == 0, 1, wb_vals)\n    wb_vals /= np.sum(wb_vals, axis=0)\n\n    return")],
+ # frequency ratios clipped to six decades
+ 'r3_ratio_clipped_to_1e6': [(FR, AMP + "    wb_vals = (np.sin(amp_array) / amp_array) ** 4\n    wb_vals = np.where(amp_array == 0, 1, wb_vals)\n    wb_vals /= np.sum(wb_vals, axis=0)\n\n    return", "    amp_array = band * np.log10(np.clip(fa_frequencies[:, np.newaxis] / smooth_fa_frequencies[np.newaxis, :], 1e-6, 1e6))\n    wb_vals = (np.sin(amp_array) / amp_array) ** 4\n    wb_vals = np.where(amp_array == 0, 1, wb_vals)\n    wb_vals /= np.sum(wb_vals, axis=0)\n\n    return")],
  # behaviour-preserving controls
  'ctl_targets_as_contiguous_copy': [(FR, AMP, "    smooth_fa_frequencies = np.ascontiguousarray(smooth_fa_frequencies)\n" + AMP)],
  'ctl_bandwidth_via_flatnonzero': [(IM, "    ind2 = np.where(fas1_smooth > lim_fas)\n    min_freq = asig.smooth_fa_frequencies[ind2[0][0]]\n    return min_freq", "    ind2 = (np.flatnonzero(np.asarray(fas1_smooth) > lim_fas),)\n    min_freq = asig.smooth_fa_frequencies[ind2[0][0]]\n    return min_freq")],
@@ -53,7 +63,7 @@ def main():
                 src = open(ROOT + path).read()
                 saved.setdefault(path, src)
                 assert src.count(old) >= 1, (name, 'pattern not found')
-                open(ROOT + path, 'w').write(src.replace(old, new))
+                open(ROOT + path, 'w').write(src.replace(old, new) if not name.startswith('r3_') else src.replace(old, new, 1))
             p = subprocess.run(['./check', 'C07'], cwd='/verif', capture_output=True, text=True,
                                env=dict(os.environ, EQSIG_REPO=ROOT.rstrip('/'), VERIF_OUT_DIR='/tmp/vf_c07_out'))
             clauses = [l.split('clause')[1].split(' ok=')[0].strip() for l in p.stdout.splitlines() if 'violated=' in l and not l.rstrip().endswith('violated=0')]
